@@ -19,7 +19,7 @@
    is C03_date_ms_form), values whose decoding the model marks Unmodelled. *)
 From Coq Require Import ZArith List Lia Bool ZifyBool.
 From GH Require Import Base.GoSem Base.Result Base.FloatBits Base.TimeSem Base.Utf8 Gen.GoConsts Gen.GoLeaf
-  Model.Scalars Model.Strings Spec.Grammar Spec.GrammarR Model.Encoder Model.Decoder
+  Model.Scalars Model.Strings Spec.Grammar Model.Encoder Model.Decoder
   Proofs.SpecScalars Proofs.DecSpec Proofs.SpecDispatch Proofs.DecoderFacts.
 Import ListNotations.
 Open Scope Z_scope.
@@ -397,30 +397,6 @@ Proof.
   rewrite (strings_refine _ _ _ _ _ P3). cbn [bind]. reflexivity.
 Qed.
 
-(* ---------------- the grammar with class definitions in front of containers (Spec/GrammarR.v) ---------------- *)
-Lemma after_def_ok_cls t r : after_def_ok (t :: r) = true ->
-  match spec_cls t with CTList | CUList | CMapT | CMapU | CObj | CObjL | CDef => True | _ => False end.
-Proof.
-  intros H. assert (B : 0 <= t < 256) by (unfold after_def_ok, rng in H; lia).
-  assert (F : forallb (fun t => implb (after_def_ok [t])
-     (match spec_cls t with CTList | CUList | CMapT | CMapU | CObj | CObjL | CDef => true | _ => false end)) all_bytes = true)
-    by (vm_compute; reflexivity).
-  pose proof (byte_forall _ F t B) as G. cbv beta in G. change (after_def_ok [t]) with (after_def_ok (t :: r)) in G. rewrite H in G.
-  cbn [implb] in G. destruct (spec_cls t); try discriminate G; exact I.
-Qed.
-Lemma rparse_v_S f0 f : rparse_v f0 (S f) = pvr_step f0 (rparse_v f0 f) (rparse_n f0 f) (rparse_z f0 f) (rparse_e f0 f).
-Proof. unfold rparse_v, rparse_n, rparse_z, rparse_e. cbn [rparsers]. destruct (rparsers f0 f) as [[[a b] c] d]. reflexivity. Qed.
-Lemma rparse_n_S f0 f : rparse_n f0 (S f) = pn_step (rparse_v f0 f) (rparse_n f0 f).
-Proof. unfold rparse_v, rparse_n. cbn [rparsers]. destruct (rparsers f0 f) as [[[a b] c] d]. reflexivity. Qed.
-Lemma rparse_e_S f0 f : rparse_e f0 (S f) = pe_step (rparse_v f0 f) (rparse_e f0 f).
-Proof. unfold rparse_v, rparse_e. cbn [rparsers]. destruct (rparsers f0 f) as [[[a b] c] d]. reflexivity. Qed.
-Lemma rparse_z_S f0 f : rparse_z f0 (S f) = pz_step (rparse_v f0 f) (rparse_z f0 f).
-Proof. unfold rparse_v, rparse_z. cbn [rparsers]. destruct (rparsers f0 f) as [[[a b] c] d]. reflexivity. Qed.
-
-Lemma pvr_step_cons f0 pv pn pz pe st t r :
-  pvr_step f0 pv pn pz pe st (t :: r) =
-  if t =? 67 then def_chain f0 pv st r else pv_body f0 pv pn pz pe (spec_cls t) t st r.
-Proof. unfold pvr_step. rewrite pv_step_cls. reflexivity. Qed.
 
 (* taking a successful monadic computation apart *)
 Ltac brk H :=
@@ -476,18 +452,6 @@ Proof.
   repeat match goal with |- context [if ?b then _ else _] => destruct b end; repeat split; intros; discriminate.
 Qed.
 
-Lemma rparse_def_container f0 : forall f st r hv rest st',
-  rparse_v f0 f st (67 :: r) = Ok (hv, rest, st') -> is_container hv.
-Proof.
-  induction f as [|f IH]; intros st r hv rest st' H; [discriminate H|].
-  rewrite rparse_v_S, pvr_step_cons in H. change (67 =? 67) with true in H. cbv iota in H. unfold def_chain in H. brk H.
-  match goal with A : after_def_ok ?x = true |- _ => rename A into AD; destruct x as [|t' r']; [discriminate AD|] end.
-  apply after_def_ok_cls in AD.
-  destruct (Z.eqb_spec t' 67) as [->|N]; [eapply IH; exact H|].
-  destruct f as [|f']; [discriminate H|].
-  rewrite rparse_v_S, pvr_step_cons in H. replace (t' =? 67) with false in H by lia.
-  apply pv_body_shape in H. destruct (spec_cls t') eqn:C; try contradiction; try (destruct H as (? & ? & ->); exact I). apply spec_cls_def in C. contradiction.
-Qed.
 
 (* ---------------- the refinement ---------------- *)
 Lemma read_ref_val st h r z r' d : bytes_ok r ->
@@ -517,10 +481,10 @@ Proof.
   repeat (destruct p as [p|p|]; try reflexivity). exfalso. apply H. reflexivity.
 Qed.
 
-Lemma rparse_n_length f0 : forall f n st bs vs rest st', rparse_n f0 f n st bs = Ok (vs, rest, st') -> length vs = n.
+Lemma hparse_n_length f0 : forall f n st bs vs rest st', hparse_n f0 f n st bs = Ok (vs, rest, st') -> length vs = n.
 Proof.
   induction f as [|f IH]; intros n st bs vs rest st' H; [discriminate H|].
-  rewrite rparse_n_S in H. destruct n as [|n]; cbn [pn_step] in H; [inversion H; reflexivity|].
+  rewrite hparse_n_S in H. destruct n as [|n]; cbn [pn_step] in H; [inversion H; reflexivity|].
   brk H. inversion H; subst. cbn [length]. f_equal. eapply IH. eassumption.
 Qed.
 
@@ -584,29 +548,29 @@ Section Main.
   Proof. intros A N. unfold re_step. rewrite A. destruct k; try reflexivity. congruence. Qed.
 
   Definition Pv (f : nat) : Prop := forall st bs hv rest st' h d h',
-    rparse_v f0 f st bs = Ok (hv, rest, st') -> bytes_ok bs -> sv te tm hv h d h' ->
+    hparse_v f0 f st bs = Ok (hv, rest, st') -> bytes_ok bs -> sv te tm hv h d h' ->
     forall g, (2 * f <= g)%nat -> R_rd (RA g) (dst_of st h) bs = Ok (d, rest, dst_of st' h').
   Definition Pl (f : nat) : Prop := forall st bs hv rest st' h d h',
-    rparse_v f0 f st bs = Ok (hv, rest, st') -> bytes_ok bs -> sl te tm hv h d h' ->
+    hparse_v f0 f st bs = Ok (hv, rest, st') -> bytes_ok bs -> sl te tm hv h d h' ->
     forall g, (2 * f <= S g)%nat -> R_rl (RA g) None (dst_of st h) bs = Ok (d, rest, dst_of st' h').
   Definition Pm (f : nat) : Prop := forall st bs hv rest st' kt vt h d h',
-    rparse_v f0 f st bs = Ok (hv, rest, st') -> bytes_ok bs -> sm te tm kt vt hv h d h' ->
+    hparse_v f0 f st bs = Ok (hv, rest, st') -> bytes_ok bs -> sm te tm kt vt hv h d h' ->
     forall g, (2 * f <= S g)%nat -> R_rm (RA g) (TMap kt vt) (dst_of st h) bs = Ok (d, rest, dst_of st' h').
   Definition Pf (f : nat) : Prop := forall st bs hv rest st' t h d h',
-    rparse_v f0 f st bs = Ok (hv, rest, st') -> bytes_ok bs -> sf te tm t hv h d h' ->
+    hparse_v f0 f st bs = Ok (hv, rest, st') -> bytes_ok bs -> sf te tm t hv h d h' ->
     forall g, (2 * f <= g)%nat -> R_rf (RA g) t (dst_of st h) bs = Ok (d, rest, dst_of st' h').
   Definition Pn (f : nat) : Prop := forall n st bs vs rest st' e h items h',
-    rparse_n f0 f n st bs = Ok (vs, rest, st') -> bytes_ok bs -> sn te tm e vs h items h' ->
+    hparse_n f0 f n st bs = Ok (vs, rest, st') -> bytes_ok bs -> sn te tm e vs h items h' ->
     (n + length rest <= length bs)%nat /\
     forall g, (2 * f <= g)%nat -> R_rn (RA g) e n (dst_of st h) bs = Ok (items, rest, dst_of st' h').
   Definition Pz (f : nat) : Prop := forall st bs vs rest st' e h items h',
-    rparse_z f0 f st bs = Ok (vs, rest, st') -> bytes_ok bs -> sn te tm e vs h items h' ->
+    hparse_z f0 f st bs = Ok (vs, rest, st') -> bytes_ok bs -> sn te tm e vs h items h' ->
     forall g, (2 * f <= g)%nat -> R_rz (RA g) e (dst_of st h) bs = Ok (items, rest, dst_of st' h').
   Definition Pe (f : nat) : Prop := forall st bs es rest st' kt vt acc h out h',
-    rparse_e f0 f st bs = Ok (es, rest, st') -> bytes_ok bs -> se te tm kt vt acc es h out h' ->
+    hparse_e f0 f st bs = Ok (es, rest, st') -> bytes_ok bs -> se te tm kt vt acc es h out h' ->
     forall g, (2 * f <= g)%nat -> R_re (RA g) kt vt acc (dst_of st h) bs = Ok (out, rest, dst_of st' h').
   Definition Pfs (f : nat) : Prop := forall wire st bs vs rest st' gfs acc h out h',
-    rparse_n f0 f (length wire) st bs = Ok (vs, rest, st') -> bytes_ok bs -> sfs te tm gfs (combine wire vs) acc h out h' ->
+    hparse_n f0 f (length wire) st bs = Ok (vs, rest, st') -> bytes_ok bs -> sfs te tm gfs (combine wire vs) acc h out h' ->
     forall g, (2 * f <= g)%nat -> R_rfs (RA g) gfs wire acc (dst_of st h) bs = Ok (out, rest, dst_of st' h').
 
   Lemma rd_rest_ok g st bs d rest st' : bytes_ok bs -> R_rd (RA g) st bs = Ok (d, rest, st') -> bytes_ok rest /\ (length rest < length bs)%nat.
@@ -621,7 +585,7 @@ Section Main.
   Lemma Pn_step f : Pv f -> Pn f -> Pn (S f).
   Proof.
     intros IHv IHn n st bs vs rest st' e h items h' P B S.
-    rewrite rparse_n_S in P. destruct n as [|n]; cbn [pn_step] in P.
+    rewrite hparse_n_S in P. destruct n as [|n]; cbn [pn_step] in P.
     - inversion P; subst. inversion S; subst. split; [lia|]. intros g Hg. destruct g as [|g]; [lia|]. reflexivity.
     - brk P. inversion P; subst. inversion S; subst.
       match goal with A : sv _ _ _ h _ _ |- _ => rename A into Sv end.
@@ -638,7 +602,7 @@ Section Main.
   Lemma Pz_step f : Pv f -> Pz f -> Pz (S f).
   Proof.
     intros IHv IHz st bs vs rest st' e h items h' P B S.
-    rewrite rparse_z_S in P. destruct bs as [|t r]; [discriminate P|].
+    rewrite hparse_z_S in P. destruct bs as [|t r]; [discriminate P|].
     destruct (Z.eq_dec t 90) as [->|N].
     - cbn in P. inversion P; subst. inversion S; subst. intros g Hg.
       destruct g as [|[|g]]; [lia|lia|]. reflexivity.
@@ -656,7 +620,7 @@ Section Main.
   Lemma Pe_step f : Pv f -> Pe f -> Pe (S f).
   Proof.
     intros IHv IHe st bs es rest st' kt vt acc h out h' P B S.
-    rewrite rparse_e_S in P. destruct bs as [|t r]; [discriminate P|].
+    rewrite hparse_e_S in P. destruct bs as [|t r]; [discriminate P|].
     destruct (Z.eq_dec t 90) as [->|N].
     - cbn in P. inversion P; subst. inversion S; subst. intros g Hg.
       destruct g as [|[|g]]; [lia|lia|]. reflexivity.
@@ -681,7 +645,7 @@ Section Main.
   Lemma Pfs_step f : Pv f -> Pf f -> Pfs f -> Pfs (S f).
   Proof.
     intros IHv IHf IHfs wire st bs vs rest st' gfs acc h out h' P B S.
-    rewrite rparse_n_S in P. destruct wire as [|w ws]; cbn [length pn_step] in P.
+    rewrite hparse_n_S in P. destruct wire as [|w ws]; cbn [length pn_step] in P.
     - inversion P; subst. cbn [combine] in S. inversion S; subst. intros g Hg. destruct g as [|g]; [lia|]. reflexivity.
     - brk P. inversion P; subst. cbn [combine] in S. intros g Hg. destruct g as [|g]; [lia|]. rewrite rfsS. unfold rfs_step.
       inversion S; subst.
@@ -701,13 +665,13 @@ Section Main.
 
   (* an instance: [x60-x6f] or 'O' int, of ANY class defined so far *)
   Lemma obj_core f : Pfs f -> forall st i r hv rest st' h d h',
-    object_of (rparse_n f0 f) st i r = Ok (hv, rest, st') -> bytes_ok r -> sv te tm hv h d h' ->
+    object_of (hparse_n f0 f) st i r = Ok (hv, rest, st') -> bytes_ok r -> sv te tm hv h d h' ->
     forall g, (2 * f + 1 <= g)%nat -> object_at tm (RA g) i (dst_of st h) r = Ok (d, rest, dst_of st' h').
   Proof.
     intros IHfs st i r hv rest st' h d h' P B S g Hg. unfold object_of in P.
     destruct (Grammar.nth_z (pclasses st) i) as [[cname fnames]|] eqn:EN; [|discriminate P]. brk P. inversion P; subst.
     inversion S; subst. match goal with A : sobj _ _ _ _ _ _ _ |- _ => inversion A; subst end.
-    match goal with A : rparse_n _ _ _ _ _ = Ok (?vs, _, _) |- _ => rename A into E0; pose proof (rparse_n_length _ _ _ _ _ _ _ _ E0) as LN end.
+    match goal with A : hparse_n _ _ _ _ _ = Ok (?vs, _, _) |- _ => rename A into E0; pose proof (hparse_n_length _ _ _ _ _ _ _ _ E0) as LN end.
     unfold object_at. change (Decoder.nth_z (dcls (dst_of st h)) i) with (Grammar.nth_z (pclasses st) i). rewrite EN.
     match goal with A : tm_lookup _ _ = Some _ |- _ => rewrite A end.
     destruct g as [|g]; [lia|]. rewrite roS. unfold ro_step.
@@ -719,7 +683,7 @@ Section Main.
   Qed.
 
   Lemma map_core f : Pe f -> forall st bs es rest st' kt vt h d h',
-    rparse_e f0 f st bs = Ok (es, rest, st') -> bytes_ok bs -> smap te tm kt vt es h d h' ->
+    hparse_e f0 f st bs = Ok (es, rest, st') -> bytes_ok bs -> smap te tm kt vt es h d h' ->
     forall g, (2 * f <= g)%nat -> map_body (RA g) kt vt (dst_of st h) bs = Ok (d, rest, dst_of st' h').
   Proof.
     intros IHe st bs es rest st' kt vt h d h' P B S g Hg. inversion S; subst. unfold map_body.
@@ -736,7 +700,7 @@ Section Main.
   (* a list in any of its six forms *)
   Lemma list_core f : Pn f -> Pz f -> forall t st r hv rest st' h d h',
     0 <= t < 256 -> spec_cls t = CTList \/ spec_cls t = CUList ->
-    pv_body f0 (rparse_v f0 f) (rparse_n f0 f) (rparse_z f0 f) (rparse_e f0 f) (spec_cls t) t st r = Ok (hv, rest, st') ->
+    pv_body f0 (hparse_v f0 f) (hparse_n f0 f) (hparse_z f0 f) (hparse_e f0 f) (spec_cls t) t st r = Ok (hv, rest, st') ->
     bytes_ok r -> (forall ty vs, hv = HList ty vs -> slist te tm ty vs h d h') ->
     forall g, (2 * f <= g)%nat -> rl_step tm (RA g) None (dst_of st h) (t :: r) = Ok (d, rest, dst_of st' h').
   Proof.
@@ -747,7 +711,7 @@ Section Main.
     - destruct (FT eq_refl) as [->|[->|(F1 & F2 & F3 & F4 & F5 & F6)]].
       + change (85 =? 85) with true in P. cbv iota in P. brk P. inversion P; subst.
         specialize (HS _ _ eq_refl). inversion HS; subst.
-        match goal with A : rparse_z _ _ _ _ = Ok _ |- _ => rename A into EZ end.
+        match goal with A : hparse_z _ _ _ _ = Ok _ |- _ => rename A into EZ end.
         match goal with A : sn _ _ _ _ _ _ _ |- _ => rename A into Sn end.
         match goal with A : parse_type _ _ _ = Ok (_, ?r1, _) |- _ =>
           pose proof (type_refines _ _ _ _ _ _ h B A) as RT;
@@ -759,7 +723,7 @@ Section Main.
         rewrite (IHz _ _ _ _ _ _ _ _ _ EZ B1 Sn g Hg). reflexivity.
       + change (86 =? 85) with false in P. change (86 =? 86) with true in P. cbv iota in P. brk P. inversion P; subst.
         specialize (HS _ _ eq_refl). inversion HS; subst.
-        match goal with A : rparse_n _ _ _ _ _ = Ok _ |- _ => rename A into EN end.
+        match goal with A : hparse_n _ _ _ _ _ = Ok _ |- _ => rename A into EN end.
         match goal with A : sn _ _ _ _ _ _ _ |- _ => rename A into Sn end.
         match goal with A : parse_type _ _ _ = Ok (_, ?r1, _) |- _ =>
           pose proof (type_refines _ _ _ _ _ _ h B A) as RT;
@@ -778,7 +742,7 @@ Section Main.
         destruct (IHn _ _ _ _ _ _ _ _ _ _ EN B2 Sn) as [_ D]. rewrite (D g Hg). reflexivity.
       + rewrite F3, F4 in P. brk P. inversion P; subst.
         specialize (HS _ _ eq_refl). inversion HS; subst.
-        match goal with A : rparse_n _ _ _ _ _ = Ok _ |- _ => rename A into EN end.
+        match goal with A : hparse_n _ _ _ _ _ = Ok _ |- _ => rename A into EN end.
         match goal with A : sn _ _ _ _ _ _ _ |- _ => rename A into Sn end.
         match goal with A : parse_type _ _ _ = Ok (_, ?r1, _) |- _ =>
           pose proof (type_refines _ _ _ _ _ _ h B A) as RT;
@@ -793,7 +757,7 @@ Section Main.
     - destruct (FU eq_refl) as [->|[->|(F1 & F2 & F3 & F4 & F5 & F6)]].
       + change (87 =? 87) with true in P. cbv iota in P. brk P. inversion P; subst.
         specialize (HS _ _ eq_refl). inversion HS; subst.
-        match goal with A : rparse_z _ _ _ _ = Ok _ |- _ => rename A into EZ end.
+        match goal with A : hparse_z _ _ _ _ = Ok _ |- _ => rename A into EZ end.
         match goal with A : sn _ _ _ _ _ _ _ |- _ => rename A into Sn end.
         unfold untyped_list_step.
         change (87 =? g_listVariableUntypedTag) with true. cbv iota. cbn [bind].
@@ -801,7 +765,7 @@ Section Main.
         rewrite (IHz _ _ _ _ _ _ _ _ _ EZ B Sn g Hg). reflexivity.
       + change (88 =? 87) with false in P. change (88 =? 88) with true in P. cbv iota in P. brk P. inversion P; subst.
         specialize (HS _ _ eq_refl). inversion HS; subst.
-        match goal with A : rparse_n _ _ _ _ _ = Ok _ |- _ => rename A into EN end.
+        match goal with A : hparse_n _ _ _ _ _ = Ok _ |- _ => rename A into EN end.
         match goal with A : sn _ _ _ _ _ _ _ |- _ => rename A into Sn end.
         match goal with A : parse_int_value _ = Ok (_, ?r2) |- _ =>
           pose proof (int_value_refines _ _ _ B A) as RI;
@@ -816,7 +780,7 @@ Section Main.
         destruct (IHn _ _ _ _ _ _ _ _ _ _ EN B2 Sn) as [_ D]. rewrite (D g Hg). reflexivity.
       + rewrite F3, F4 in P. brk P. inversion P; subst.
         specialize (HS _ _ eq_refl). inversion HS; subst.
-        match goal with A : rparse_n _ _ _ _ _ = Ok _ |- _ => rename A into EN end.
+        match goal with A : hparse_n _ _ _ _ _ = Ok _ |- _ => rename A into EN end.
         match goal with A : sn _ _ _ _ _ _ _ |- _ => rename A into Sn end.
         destruct (IHn _ _ _ _ _ _ _ _ _ _ EN B Sn) as [L D].
         unfold untyped_list_step. rewrite F1, F2, F5. cbn [bind].
@@ -832,27 +796,25 @@ Section Main.
   Proof. intros H. inversion H; subst. assumption. Qed.
 
   (* the class-definition prefix, common to every position *)
-  Lemma def_prefix pv st r x h : def_chain f0 pv st r = Ok x -> bytes_ok r ->
-    exists st1 r3, read_class_def (dst_of st h) r = Ok (tt, r3, dst_of st1 h) /\ bytes_ok r3 /\
-                   pv st1 r3 = Ok x /\ after_def_ok r3 = true.
+  Lemma def_prefix pv pn pz pe t st r x h : pv_body f0 pv pn pz pe CDef t st r = Ok x -> bytes_ok r ->
+    exists st1 r3, read_class_def (dst_of st h) r = Ok (tt, r3, dst_of st1 h) /\ bytes_ok r3 /\ pv st1 r3 = Ok x.
   Proof.
-    intros P B. unfold def_chain in P. brk P.
+    intros P B. cbn [pv_body] in P. brk P.
     match goal with A : negb (count_ok _ _) = false |- _ => apply negb_false_iff in A; rename A into CO end.
     match goal with A1 : parse_string_value _ _ = Ok _, A2 : parse_int_value _ = Ok _, A3 : parse_strings _ _ _ = Ok _ |- _ =>
       pose proof (classdef_refines _ st _ _ _ _ _ _ _ h B A1 A2 CO A3) as RC end.
-    eexists _, _. split; [exact RC|]. split; [eapply bytes_ok_psuffix; [eapply read_class_def_psuffix; exact RC|exact B]|].
-    split; [exact P|assumption].
+    eexists _, _. split; [exact RC|]. split; [eapply bytes_ok_psuffix; [eapply read_class_def_psuffix; exact RC|exact B]|exact P].
   Qed.
 
   Lemma Pv_step f : Pv f -> Pn f -> Pz f -> Pe f -> Pfs f -> Pv (S f).
   Proof.
     intros IHv IHn IHz IHe IHfs st bs hv rest st' h d h' P B S g Hg.
-    rewrite rparse_v_S in P. destruct bs as [|t r]; [discriminate P|]. rewrite pvr_step_cons in P.
+    rewrite hparse_v_S in P. destruct bs as [|t r]; [discriminate P|]. rewrite pv_step_cls in P.
     apply bytes_ok_cons in B. destruct B as [Bt Br].
     destruct g as [|g]; [lia|]. rewrite rdS, rd_step_cls, (tag_dispatch_agrees t Bt).
     destruct (container_tag_facts t Bt) as (_ & _ & FO).
     destruct (Z.eqb_spec t 67) as [->|N67].
-    - destruct (def_prefix _ _ _ _ h P Br) as (st1 & r3 & RC & B3 & P3 & _).
+    - change (spec_cls 67) with CDef in P. destruct (def_prefix _ _ _ _ _ _ _ _ h P Br) as (st1 & r3 & RC & B3 & P3).
       change (spec_cls 67) with CDef. cbn [rd_body]. rewrite RC. cbn [bind snd].
       apply (IHv _ _ _ _ _ _ _ _ P3 B3 S g ltac:(lia)).
     - destruct (spec_cls t) eqn:C; cbn [pv_body rd_body] in *; try discriminate P.
@@ -885,10 +847,10 @@ Section Main.
           assert (B1 : bytes_ok r1) by (eapply bytes_ok_psuffix; [eapply read_type_psuffix; exact RT|exact Br]) end.
         rewrite RT. cbn [bind].
         match goal with A : tm_lookup _ _ = Some _ |- _ => rewrite A end.
-        match goal with A : rparse_e _ _ _ _ = Ok _, M : smap _ _ _ _ _ _ _ _ |- _ =>
+        match goal with A : hparse_e _ _ _ _ = Ok _, M : smap _ _ _ _ _ _ _ _ |- _ =>
           apply (map_core f IHe _ _ _ _ _ _ _ _ _ _ A B1 M); lia end.
       + brk P. inversion P; subst. inversion S; subst.
-        match goal with A : rparse_e _ _ _ _ = Ok _, M : smap _ _ _ _ _ _ _ _ |- _ =>
+        match goal with A : hparse_e _ _ _ _ = Ok _, M : smap _ _ _ _ _ _ _ _ |- _ =>
           apply (map_core f IHe _ _ _ _ _ _ _ _ _ _ A Br M); lia end.
       + apply spec_cls_def in C. contradiction.
       + (* instance, long form *) brk P.
@@ -905,11 +867,11 @@ Section Main.
   Lemma Pl_step f : Pl f -> Pn f -> Pz f -> Pl (S f).
   Proof.
     intros IHl IHn IHz st bs hv rest st' h d h' P B S g Hg.
-    rewrite rparse_v_S in P. destruct bs as [|t r]; [discriminate P|]. rewrite pvr_step_cons in P.
+    rewrite hparse_v_S in P. destruct bs as [|t r]; [discriminate P|]. rewrite pv_step_cls in P.
     apply bytes_ok_cons in B. destruct B as [Bt Br].
     destruct g as [|g]; [lia|]. rewrite rlS.
     destruct (Z.eqb_spec t 67) as [->|N67].
-    - destruct (def_prefix _ _ _ _ h P Br) as (st1 & r3 & RC & B3 & P3 & _).
+    - change (spec_cls 67) with CDef in P. destruct (def_prefix _ _ _ _ _ _ _ _ h P Br) as (st1 & r3 & RC & B3 & P3).
       rewrite rl_step_cls. change (rl_cls 67) with CDef. cbn [rl_body]. rewrite RC. cbn [bind snd].
       apply (IHl _ _ _ _ _ _ _ _ P3 B3 S g ltac:(lia)).
     - pose proof (pv_body_shape _ _ _ _ _ _ _ _ _ _ _ _ P) as SH.
@@ -932,11 +894,11 @@ Section Main.
   Lemma Pm_step f : Pm f -> Pe f -> Pm (S f).
   Proof.
     intros IHm IHe st bs hv rest st' kt vt h d h' P B S g Hg.
-    rewrite rparse_v_S in P. destruct bs as [|t r]; [discriminate P|]. rewrite pvr_step_cons in P.
+    rewrite hparse_v_S in P. destruct bs as [|t r]; [discriminate P|]. rewrite pv_step_cls in P.
     apply bytes_ok_cons in B. destruct B as [Bt Br].
     destruct g as [|g]; [lia|]. rewrite rmS, rm_step_cls.
     destruct (Z.eqb_spec t 67) as [->|N67].
-    - destruct (def_prefix _ _ _ _ h P Br) as (st1 & r3 & RC & B3 & P3 & _).
+    - change (spec_cls 67) with CDef in P. destruct (def_prefix _ _ _ _ _ _ _ _ h P Br) as (st1 & r3 & RC & B3 & P3).
       change (rm_cls 67) with CDef. cbn [rm_body]. rewrite RC. cbn [bind snd].
       apply (IHm _ _ _ _ _ _ _ _ _ _ P3 B3 S g ltac:(lia)).
     - pose proof (pv_body_shape _ _ _ _ _ _ _ _ _ _ _ _ P) as SH.
@@ -952,43 +914,41 @@ Section Main.
           pose proof (type_refines _ _ _ _ _ _ h Br A) as RT;
           assert (B1 : bytes_ok r1) by (eapply bytes_ok_psuffix; [eapply read_type_psuffix; exact RT|exact Br]) end.
         rewrite RT. cbn [bind snd].
-        match goal with A : rparse_e _ _ _ _ = Ok _, M : smap _ _ _ _ _ _ _ _ |- _ =>
+        match goal with A : hparse_e _ _ _ _ = Ok _, M : smap _ _ _ _ _ _ _ _ |- _ =>
           apply (map_core f IHe _ _ _ _ _ _ _ _ _ _ A B1 M); lia end.
       + brk P. inversion P; subst. inversion S; subst.
-        match goal with A : rparse_e _ _ _ _ = Ok _, M : smap _ _ _ _ _ _ _ _ |- _ =>
+        match goal with A : hparse_e _ _ _ _ = Ok _, M : smap _ _ _ _ _ _ _ _ |- _ =>
           apply (map_core f IHe _ _ _ _ _ _ _ _ _ _ A Br M); lia end.
       + apply spec_cls_def in C. contradiction.
   Qed.
 
-  (* a value that is not a list, map or object is not preceded by a class definition *)
-  Lemma scalar_parse f st bs hv rest st' : rparse_v f0 (S f) st bs = Ok (hv, rest, st') -> ~ is_container hv ->
-    exists t r, bs = t :: r /\ t <> 67 /\ pv_body f0 (rparse_v f0 f) (rparse_n f0 f) (rparse_z f0 f) (rparse_e f0 f) (spec_cls t) t st r = Ok (hv, rest, st').
+  Lemma rf_step_core_eq R t st tag r : scalar_type t = false \/ tag <> 67 ->
+    rf_step te tm R t st (tag :: r) = rf_core te tm R t st (tag :: r).
   Proof.
-    intros P NC. destruct bs as [|t r]; [rewrite rparse_v_S in P; discriminate P|].
-    destruct (Z.eqb_spec t 67) as [->|N]; [exfalso; apply NC; eapply rparse_def_container; exact P|].
-    rewrite rparse_v_S, pvr_step_cons in P. replace (t =? 67) with false in P by lia. exists t, r. split; [reflexivity|]. split; [exact N|exact P].
+    intros H. unfold rf_step. destruct H as [H|H]; [rewrite H; reflexivity|].
+    replace (tag =? g_objectDefTag) with false by (unfold g_objectDefTag; lia). rewrite andb_false_r. reflexivity.
   Qed.
 
   Lemma rf_struct_like R t st bs : struct_like t ->
-    rf_step te tm R t st bs =
+    rf_core te tm R t st bs =
     (do (x, st1) <- read_struct tm R st bs ;; let '(s, r) := x in
      do v <- set_value te (dheap st1) t s ;; Ok (v, r, st1)).
   Proof. destruct t as [| | | | | | |n|t'| | | |]; cbn; try contradiction; try reflexivity. destruct t'; try contradiction; reflexivity. Qed.
   Lemma rf_slice_like R t st bs m r st1 : slice_like t -> R_rl R None st bs = Ok (m, r, st1) ->
-    rf_step te tm R t st bs = (do v <- set_slice te (dheap st1) t m ;; Ok (v, r, st1)).
-  Proof. intros SL E. destruct t; cbn in SL; try contradiction; cbn [rf_step]; rewrite E; reflexivity. Qed.
+    rf_core te tm R t st bs = (do v <- set_slice te (dheap st1) t m ;; Ok (v, r, st1)).
+  Proof. intros SL E. destruct t; cbn in SL; try contradiction; cbn [rf_core]; rewrite E; reflexivity. Qed.
 
   (* decoder.go readStruct *)
   Lemma Ps_step f : Pv f -> Pfs f -> forall st bs hv rest st' h d h',
-    rparse_v f0 (S f) st bs = Ok (hv, rest, st') -> bytes_ok bs -> ss te tm hv h d h' ->
+    hparse_v f0 (S f) st bs = Ok (hv, rest, st') -> bytes_ok bs -> ss te tm hv h d h' ->
     forall g, (2 * f + 1 <= g)%nat -> read_struct tm (RA g) (dst_of st h) bs = Ok (d, rest, dst_of st' h').
   Proof.
     intros IHv IHfs st bs hv rest st' h d h' P B S g Hg.
-    rewrite rparse_v_S in P. destruct bs as [|t r]; [discriminate P|]. rewrite pvr_step_cons in P.
+    rewrite hparse_v_S in P. destruct bs as [|t r]; [discriminate P|]. rewrite pv_step_cls in P.
     apply bytes_ok_cons in B. destruct B as [Bt Br]. rewrite read_struct_cls.
     destruct (container_tag_facts t Bt) as (_ & _ & FO).
     destruct (Z.eqb_spec t 67) as [->|N67].
-    - destruct (def_prefix _ _ _ _ h P Br) as (st1 & r3 & RC & B3 & P3 & _).
+    - change (spec_cls 67) with CDef in P. destruct (def_prefix _ _ _ _ _ _ _ _ h P Br) as (st1 & r3 & RC & B3 & P3).
       change (rs_cls 67) with CDef. cbn [rs_body]. rewrite RC. cbn [bind snd].
       apply (IHv _ _ _ _ _ _ _ _ P3 B3 (ss_sv _ _ _ _ _ _ S) g ltac:(lia)).
     - pose proof (pv_body_shape _ _ _ _ _ _ _ _ _ _ _ _ P) as SH.
@@ -1011,53 +971,66 @@ Section Main.
     first [ let E := fresh in destruct SH as (? & ? & E); discriminate E
           | let E := fresh in destruct SH as (? & E); discriminate E
           | discriminate SH | exact SH ].
-  Ltac scalar_case P B t0 r Bt Br Pb C :=
-    let SH := fresh "SH" in
-    let N := fresh "N" in
-    destruct (scalar_parse _ _ _ _ _ _ P ltac:(cbn; tauto)) as (t0 & r & -> & N & Pb);
-    apply bytes_ok_cons in B; destruct B as [Bt Br];
-    pose proof (pv_body_shape _ _ _ _ _ _ _ _ _ _ _ _ Pb) as SH;
-    destruct (spec_cls t0) eqn:C; try (shape_discr SH); try (apply spec_cls_def in C; contradiction); cbn [pv_body] in Pb.
+  Ltac only_class SH C Pb N :=
+    destruct (spec_cls _) eqn:C in SH, Pb; try (shape_discr SH); try (apply spec_cls_def in C; contradiction); cbn [pv_body] in Pb.
 
-  Lemma Pf_step f : Pv f -> Pfs f -> Pl (S f) -> Pm (S f) -> Pf (S f).
+  Lemma Pf_step f : Pf f -> Pv f -> Pfs f -> Pl (S f) -> Pm (S f) -> Pf (S f).
   Proof.
-    intros IHv IHfs IHl IHm st bs hv rest st' t h d h' P B S g Hg.
+    intros IHf IHv IHfs IHl IHm st bs hv rest st' t h d h' P B S g Hg.
     destruct g as [|g]; [lia|]. rewrite rfS.
-    inversion S; subst.
-    - (* string *) scalar_case P B t0 r Bt Br Pb C. brk Pb. inversion Pb; subst. cbn [rf_step].
-      change (decode_string (t0 :: r)) with (decode_string_tag t0 r).
-      match goal with A : parse_string _ _ _ = Ok _ |- _ => rewrite (decode_string_follows_spec _ _ _ _ _ A) end. reflexivity.
-    - (* null at a string field: the empty string *) scalar_case P B t0 r Bt Br Pb C. inversion Pb; subst.
-      apply (proj1 (spec_cls_single t0)) in C. subst t0. reflexivity.
-    - (* integer kinds read as int *) scalar_case P B t0 r Bt Br Pb C. brk Pb. inversion Pb; subst. cbn [rf_step]. unfold dec_field_kind.
-      match goal with A : kind_wire_int _ = true |- _ => rewrite A end.
-      change (decode_int (t0 :: r)) with (decode_int_tag t0 r).
-      match goal with A : parse_int _ _ = Ok _ |- _ => rewrite (decode_int_follows_spec _ _ _ _ Bt Br A) end. reflexivity.
-    - scalar_case P B t0 r Bt Br Pb C. brk Pb. inversion Pb; subst. cbn [rf_step]. unfold dec_field_kind.
-      match goal with A : kind_wire_int _ = false |- _ => rewrite A end.
-      change (decode_long (t0 :: r)) with (decode_long_tag t0 r).
-      match goal with A : parse_long _ _ = Ok _ |- _ => rewrite (decode_long_follows_spec _ _ _ _ Bt Br A) end. reflexivity.
-    - (* bool *) scalar_case P B t0 r Bt Br Pb C.
-      + inversion Pb; subst. apply (proj1 (proj2 (spec_cls_single t0))) in C. subst t0. reflexivity.
-      + inversion Pb; subst. apply (proj2 (proj2 (spec_cls_single t0))) in C. subst t0. reflexivity.
-    - (* float64 *) scalar_case P B t0 r Bt Br Pb C. brk Pb. inversion Pb; subst. cbn [rf_step].
-      change (decode_double (t0 :: r)) with (decode_double_tag t0 r).
-      match goal with A : parse_double _ _ = Ok _ |- _ => rewrite (decode_double_follows_spec _ _ _ _ Br A) end. reflexivity.
-    - scalar_case P B t0 r Bt Br Pb C. brk Pb. inversion Pb; subst. cbn [rf_step].
-      change (decode_double (t0 :: r)) with (decode_double_tag t0 r).
-      match goal with A : parse_double _ _ = Ok _ |- _ => rewrite (decode_double_follows_spec _ _ _ _ Br A) end. reflexivity.
-    - (* struct, pointer to struct *)
-      match goal with A : struct_like _ |- _ => rewrite (rf_struct_like _ _ _ _ A) end.
-      match goal with A : ss _ _ _ _ _ _ |- _ => rewrite (Ps_step f IHv IHfs _ _ _ _ _ _ _ _ P B A g ltac:(lia)) end.
-      cbn [bind]. change (dheap (dst_of st' h')) with h'.
-      match goal with A : set_value _ _ _ _ = Ok _ |- _ => rewrite A end. reflexivity.
-    - (* map *) cbn [rf_step].
-      match goal with A : sm _ _ _ _ _ _ _ _ |- _ => apply (IHm _ _ _ _ _ _ _ _ _ _ P B A g ltac:(lia)) end.
-    - (* slice, byte slice *)
-      match goal with A : slice_like _, L : sl _ _ _ _ _ _ |- _ =>
-        rewrite (rf_slice_like _ _ _ _ _ _ _ A (IHl _ _ _ _ _ _ _ _ P B L g ltac:(lia))) end.
-      change (dheap (dst_of st' h')) with h'.
-      match goal with A : set_slice _ _ _ _ = Ok _ |- _ => rewrite A end. reflexivity.
+    destruct bs as [|t0 r]; [rewrite hparse_v_S in P; discriminate P|].
+    destruct (Bool.bool_dec (scalar_type t) true) as [SC|SC].
+    - (* string, integer, bool, float fields: readScalarTag, then the scalar reader *)
+      pose proof P as Pb. rewrite hparse_v_S, pv_step_cls in Pb.
+      apply bytes_ok_cons in B. destruct B as [Bt Br].
+      destruct (Z.eq_dec t0 67) as [->|N].
+      + change (spec_cls 67) with CDef in Pb. destruct (def_prefix _ _ _ _ _ _ _ _ h Pb Br) as (st1 & r3 & RC & B3 & P3).
+        unfold rf_step. rewrite SC. change (67 =? g_objectDefTag) with true. cbn [andb]. rewrite RC. cbn [bind snd].
+        apply (IHf _ _ _ _ _ _ _ _ _ P3 B3 S g ltac:(lia)).
+      + rewrite rf_step_core_eq by (right; exact N).
+        pose proof (pv_body_shape _ _ _ _ _ _ _ _ _ _ _ _ Pb) as SH.
+        inversion S; subst;
+          try (exfalso; match goal with
+                        | A : struct_like ?x |- _ => destruct x; cbn in A, SC; (contradiction || discriminate SC)
+                        | A : slice_like ?x |- _ => destruct x; cbn in A, SC; (contradiction || discriminate SC)
+                        | _ => discriminate SC end).
+        * (* string *) only_class SH C Pb N. brk Pb. inversion Pb; subst. cbn [rf_core].
+          change (decode_string (t0 :: r)) with (decode_string_tag t0 r).
+          match goal with A : parse_string _ _ _ = Ok _ |- _ => rewrite (decode_string_follows_spec _ _ _ _ _ A) end. reflexivity.
+        * (* null at a string field: the empty string *) only_class SH C Pb N. inversion Pb; subst.
+          apply (proj1 (spec_cls_single t0)) in C. subst t0. reflexivity.
+        * (* integer kinds read as int *) only_class SH C Pb N. brk Pb. inversion Pb; subst. cbn [rf_core]. unfold dec_field_kind.
+          match goal with A : kind_wire_int _ = true |- _ => rewrite A end.
+          change (decode_int (t0 :: r)) with (decode_int_tag t0 r).
+          match goal with A : parse_int _ _ = Ok _ |- _ => rewrite (decode_int_follows_spec _ _ _ _ Bt Br A) end. reflexivity.
+        * only_class SH C Pb N. brk Pb. inversion Pb; subst. cbn [rf_core]. unfold dec_field_kind.
+          match goal with A : kind_wire_int _ = false |- _ => rewrite A end.
+          change (decode_long (t0 :: r)) with (decode_long_tag t0 r).
+          match goal with A : parse_long _ _ = Ok _ |- _ => rewrite (decode_long_follows_spec _ _ _ _ Bt Br A) end. reflexivity.
+        * (* bool *) only_class SH C Pb N.
+          -- inversion Pb; subst. apply (proj1 (proj2 (spec_cls_single t0))) in C. subst t0. reflexivity.
+          -- inversion Pb; subst. apply (proj2 (proj2 (spec_cls_single t0))) in C. subst t0. reflexivity.
+        * (* float64 *) only_class SH C Pb N. brk Pb. inversion Pb; subst. cbn [rf_core].
+          change (decode_double (t0 :: r)) with (decode_double_tag t0 r).
+          match goal with A : parse_double _ _ = Ok _ |- _ => rewrite (decode_double_follows_spec _ _ _ _ Br A) end. reflexivity.
+        * only_class SH C Pb N. brk Pb. inversion Pb; subst. cbn [rf_core].
+          change (decode_double (t0 :: r)) with (decode_double_tag t0 r).
+          match goal with A : parse_double _ _ = Ok _ |- _ => rewrite (decode_double_follows_spec _ _ _ _ Br A) end. reflexivity.
+    - (* struct, map and list fields: their readers handle the definition tag themselves *)
+      rewrite rf_step_core_eq by (left; destruct (scalar_type t); congruence).
+      inversion S; subst; try (exfalso; apply SC; reflexivity).
+      + (* struct, pointer to struct *)
+        match goal with A : struct_like _ |- _ => rewrite (rf_struct_like _ _ _ _ A) end.
+        match goal with A : ss _ _ _ _ _ _ |- _ => rewrite (Ps_step f IHv IHfs _ _ _ _ _ _ _ _ P B A g ltac:(lia)) end.
+        cbn [bind]. change (dheap (dst_of st' h')) with h'.
+        match goal with A : set_value _ _ _ _ = Ok _ |- _ => rewrite A end. reflexivity.
+      + (* map *) cbn [rf_core].
+        match goal with A : sm _ _ _ _ _ _ _ _ |- _ => apply (IHm _ _ _ _ _ _ _ _ _ _ P B A g ltac:(lia)) end.
+      + (* slice, byte slice *)
+        match goal with A : slice_like _, L : sl _ _ _ _ _ _ |- _ =>
+          rewrite (rf_slice_like _ _ _ _ _ _ _ A (IHl _ _ _ _ _ _ _ _ P B L g ltac:(lia))) end.
+        change (dheap (dst_of st' h')) with h'.
+        match goal with A : set_slice _ _ _ _ = Ok _ |- _ => rewrite A end. reflexivity.
   Qed.
 
   Definition All (f : nat) : Prop := Pv f /\ Pl f /\ Pm f /\ Pf f /\ Pn f /\ Pz f /\ Pe f /\ Pfs f.
@@ -1077,18 +1050,18 @@ Section Main.
 
   (* from any pair of corresponding tables, in the middle of a stream *)
   Theorem refines_from_any_state f st bs hv rest st' h d h' :
-    rparse_v f0 f st bs = Ok (hv, rest, st') -> bytes_ok bs -> sv te tm hv h d h' ->
+    hparse_v f0 f st bs = Ok (hv, rest, st') -> bytes_ok bs -> sv te tm hv h d h' ->
     forall g, (2 * f <= g)%nat -> R_rd (RA g) (dst_of st h) bs = Ok (d, rest, dst_of st' h').
   Proof. apply (proj1 (all_fuel f)). Qed.
   Theorem field_refines_from_any_state f st bs hv rest st' t h d h' :
-    rparse_v f0 f st bs = Ok (hv, rest, st') -> bytes_ok bs -> sf te tm t hv h d h' ->
+    hparse_v f0 f st bs = Ok (hv, rest, st') -> bytes_ok bs -> sf te tm t hv h d h' ->
     forall g, (2 * f <= g)%nat -> R_rf (RA g) t (dst_of st h) bs = Ok (d, rest, dst_of st' h').
   Proof. apply (proj1 (proj2 (proj2 (proj2 (all_fuel f))))). Qed.
 End Main.
 
 (* Decoder.Decode / ToObject on a whole message *)
 Theorem decoder_refines_grammar te tm bs hv rest st' d h' :
-  rparse pstate0 bs = Ok (hv, rest, st') -> bytes_ok bs -> sv te tm hv [] d h' ->
+  hparse pstate0 bs = Ok (hv, rest, st') -> bytes_ok bs -> sv te tm hv [] d h' ->
   decode te tm bs = Ok (d, rest, dst_of st' h').
 Proof.
   intros P B S. unfold decode. change dstate0 with (dst_of pstate0 []).
@@ -1098,70 +1071,8 @@ Qed.
 (* C03: two renderings the grammar reads as the same abstract value decode to the same Go value
    and the same reference table *)
 Theorem renderings_decode_alike te tm bs1 bs2 hv st1 st2 d h' :
-  rparse pstate0 bs1 = Ok (hv, [], st1) -> rparse pstate0 bs2 = Ok (hv, [], st2) ->
+  hparse pstate0 bs1 = Ok (hv, [], st1) -> hparse pstate0 bs2 = Ok (hv, [], st2) ->
   bytes_ok bs1 -> bytes_ok bs2 -> sv te tm hv [] d h' ->
   decode te tm bs1 = Ok (d, [], dst_of st1 h') /\ decode te tm bs2 = Ok (d, [], dst_of st2 h').
 Proof. intros P1 P2 B1 B2 S. split; eapply decoder_refines_grammar; eassumption. Qed.
 
-(* ---------------- the restricted grammar is part of the reference grammar ---------------- *)
-Section Mono.
-  Variable f0 : nat.
-  Variables (pv pv' : pstate -> bytes -> pres hval) (pn pn' : nat -> pstate -> bytes -> pres (list hval))
-            (pz pz' : pstate -> bytes -> pres (list hval)) (pe pe' : pstate -> bytes -> pres (list (hval * hval))).
-  Hypothesis Hv : forall st bs x, pv st bs = Ok x -> pv' st bs = Ok x.
-  Hypothesis Hn : forall n st bs x, pn n st bs = Ok x -> pn' n st bs = Ok x.
-  Hypothesis Hz : forall st bs x, pz st bs = Ok x -> pz' st bs = Ok x.
-  Hypothesis He : forall st bs x, pe st bs = Ok x -> pe' st bs = Ok x.
-
-  Ltac mono :=
-    cbn [bind]; repeat (first
-      [ match goal with E : pv _ _ = Ok _ |- _ => rewrite (Hv _ _ _ E); clear E end
-      | match goal with E : pn _ _ _ = Ok _ |- _ => rewrite (Hn _ _ _ _ E); clear E end
-      | match goal with E : pz _ _ = Ok _ |- _ => rewrite (Hz _ _ _ E); clear E end
-      | match goal with E : pe _ _ = Ok _ |- _ => rewrite (He _ _ _ E); clear E end
-      | match goal with E : ?l = Ok _ |- context [?l] => rewrite E end
-      | match goal with E : ?l = Some _ |- context [?l] => rewrite E end
-      | match goal with E : ?l = false |- context [?l] => rewrite E end
-      | match goal with E : ?l = true |- context [?l] => rewrite E end ];
-    cbn [bind]).
-
-  Lemma pn_step_mono n st bs x : pn_step pv pn n st bs = Ok x -> pn_step pv' pn' n st bs = Ok x.
-  Proof. destruct n as [|n]; cbn [pn_step]; intros P; [exact P|]. brk P. mono. cbn [bind] in P. exact P. Qed.
-  Lemma pz_step_mono st bs x : pz_step pv pz st bs = Ok x -> pz_step pv' pz' st bs = Ok x.
-  Proof.
-    destruct bs as [|t r]; [intros P; exact P|]. destruct (Z.eq_dec t 90) as [->|N]; [intros P; exact P|].
-    rewrite !pz_step_cons by exact N. intros P. brk P. mono. cbn [bind] in P. exact P.
-  Qed.
-  Lemma pe_step_mono st bs x : pe_step pv pe st bs = Ok x -> pe_step pv' pe' st bs = Ok x.
-  Proof.
-    destruct bs as [|t r]; [intros P; exact P|]. destruct (Z.eq_dec t 90) as [->|N]; [intros P; exact P|].
-    rewrite !pe_step_cons' by exact N. intros P. brk P. mono. cbn [bind] in P. exact P.
-  Qed.
-  Lemma pv_body_mono c t st r x : pv_body f0 pv pn pz pe c t st r = Ok x -> pv_body f0 pv' pn' pz' pe' c t st r = Ok x.
-  Proof.
-    destruct c; cbn [pv_body]; intros P; try exact P; try (unfold object_of in * ); brk P; mono; cbn [bind] in P; try exact P. apply Hv. exact P.
-  Qed.
-  Lemma pvr_step_mono st bs x : pvr_step f0 pv pn pz pe st bs = Ok x -> pv_step f0 pv' pn' pz' pe' st bs = Ok x.
-  Proof.
-    destruct bs as [|t r]; [intros P; exact P|]. rewrite pvr_step_cons, pv_step_cls.
-    destruct (Z.eqb_spec t 67) as [->|N]; [|apply pv_body_mono].
-    change (spec_cls 67) with CDef. cbn [pv_body]. unfold def_chain. intros P. brk P. mono. reflexivity.
-  Qed.
-End Mono.
-
-Theorem rparse_is_hparse f0 : forall f,
-  (forall st bs x, rparse_v f0 f st bs = Ok x -> hparse_v f0 f st bs = Ok x) /\
-  (forall n st bs x, rparse_n f0 f n st bs = Ok x -> hparse_n f0 f n st bs = Ok x) /\
-  (forall st bs x, rparse_z f0 f st bs = Ok x -> hparse_z f0 f st bs = Ok x) /\
-  (forall st bs x, rparse_e f0 f st bs = Ok x -> hparse_e f0 f st bs = Ok x).
-Proof.
-  induction f as [|f (IHv & IHn & IHz & IHe)]; [repeat split; intros; discriminate|].
-  rewrite rparse_v_S, rparse_n_S, rparse_z_S, rparse_e_S, hparse_v_S, hparse_n_S, hparse_z_S, hparse_e_S.
-  repeat split; intros.
-  - eapply pvr_step_mono; eassumption.
-  - eapply pn_step_mono; eassumption.
-  - eapply pz_step_mono; eassumption.
-  - eapply pe_step_mono; eassumption.
-Qed.
-Corollary rparse_hparse st bs x : rparse st bs = Ok x -> hparse st bs = Ok x.
-Proof. apply (proj1 (rparse_is_hparse _ _)). Qed.
